@@ -37,7 +37,8 @@ class JacobianMonitor(solvex.Monitor):
             ex.tags.add("partially_initialised")   # growing phase / early exit: outside the property's scope
             return
         groups = mon.groups_by_point(ex)
-        npt_allowed = ex.cfg["npt"] + (2 if (ex.cfg.get("user_params") or {}).get("restarts.increase_npt") else 0)
+        up = ex.cfg.get("user_params") or {}
+        npt_allowed = max(ex.cfg["npt"], up.get("restarts.max_npt", ex.cfg["npt"])) if up.get("restarts.increase_npt") else ex.cfg["npt"]
         if len(set(nums.tolist())) != len(nums):
             ex.violate("eval_nums_distinct", "jacmin_eval_nums has repeated entries: %s" % nums.tolist())
             return
@@ -76,7 +77,8 @@ class JacobianMonitor(solvex.Monitor):
         if err > tol:
             ex.violate("jacobian_is_fit", "soln.jacobian differs from the independent fit through evaluations %s by %.3g relative "
                        "(tol %.3g, cond %.3g): returned %s, fit %s [%s]" % (nums.tolist(), err, tol, cond, J.tolist(), Jfit.tolist(), s.msg))
-        if ex.cfg["prob"]["f"] == "lin" and not ex.cfg.get("noise_amp"):   # with injected noise the data are not linear
+        # with injected noise or deviated answers the data are not linear any more
+        if ex.cfg["prob"]["f"] == "lin" and not ex.cfg.get("noise_amp") and not ex.devs:
             A = np.array(ex.cfg["prob"]["A"])
             errA = float(np.max(np.abs(J - A))) / max(1e-300, float(np.max(np.abs(A))))
             if errA > 1e-6 * cond * max(1.0, rscale / (dmax * float(np.max(np.abs(A))))):
@@ -151,7 +153,8 @@ def _configs(tier, salts):
                                        "user_params": cfgs.user_params(npt, cfgs.RESTART_MODES[rmode])}
                                 out.append((cfg, {"depth": 0}))
         if salt == 0 or tier == "thorough":
-            for name, cfg in cfgs.broad_cfgs(salt=salt, exclude=("reg", "sets"), budgets=tuple(range(4, 64, 3 if tier == "quick" else 1))):
+            for name, cfg in cfgs.broad_cfgs(salt=salt, exclude=("reg", "sets"), budgets=tuple(range(4, 64, 3 if tier == "quick" else 1)),
+                                             overlays=("avg", "soft")):
                 cfg = dict(cfg, tag_restart="broad")
                 out.append((cfg, {"depth": 0}))
     return out
